@@ -681,18 +681,20 @@ impl TypeChecker {
         ctx: TypeCtx,
     ) -> TypeResult<(Option<TyID>, Option<TyID>)> {
         let mut ret = None;
-        for stmt in statements.iter() {
-            let stmt_ret = self.statement(stmt, ctx)?;
+        let mut value = None;
+        for (i, stmt) in statements.iter().enumerate() {
+            // The last statement gives the block its value. Check it once only - checking it
+            // again doubles the work for every level of nesting.
+            let stmt_ret = match stmt {
+                Statement::StatementExpression { value: expr, .. } if i + 1 == statements.len() => {
+                    let (expr_ret, expr) = self.expression(expr, ctx)?;
+                    value = Some(expr);
+                    expr_ret
+                }
+                _ => self.statement(stmt, ctx)?,
+            };
             ret = self.unify_option(span, ctx, ret, stmt_ret)?;
         }
-        // We typecheck the last statement twice sometimes, doesn't matter though.
-        let value = if let Some(Statement::StatementExpression { value, .. }) = statements.last() {
-            let (value_ret, value) = self.expression(value, ctx)?;
-            ret = self.unify_option(span, ctx, ret, value_ret)?;
-            Some(value)
-        } else {
-            None
-        };
         Ok((ret, value))
     }
 
